@@ -16,8 +16,29 @@
   Only property theorems live here; helpers are in MM/Lemmas/C01.lean.
 -/
 import MM.Lemmas.C01
+import MM.Gen.C01
 
 namespace MM.C01
+
+/-! ### tie to the source (regenerated facts, MM/Gen/C01.lean) -/
+
+/-- The model's 28-byte overhead is the package's `EncryptionOverhead = NonceSize + TagSize`. -/
+theorem C01_tie_constants :
+    Gen.C01.encryptionOverhead = overhead ∧ Gen.C01.nonceSize = 12 ∧ Gen.C01.tagSize = 16 := by decide
+
+/-- In `Decrypt`, every read of `recvNonce`, the `aead.Open` call (whose error returns at once) and
+    the single `recvNonce` update lie in ONE Lock..Unlock region, in that order: the update comes after
+    the authenticated open, and the window test cannot be separated from the update by another
+    goroutine — so `decrypt` (one atomic step per call) is the right granularity.  `Decrypt` is the
+    only function that writes `recvNonce`. -/
+theorem C01_tie_decrypt_region :
+    (∀ k ∈ Gen.C01.recvReadStmts, Gen.C01.lockStmt < k ∧ k < Gen.C01.openStmt) ∧
+    Gen.C01.recvReadStmts ≠ [] ∧
+    Gen.C01.openErrChecked = true ∧
+    (∀ k ∈ Gen.C01.recvWriteStmts, Gen.C01.openStmt + 1 < k ∧ k < Gen.C01.unlockStmt) ∧
+    Gen.C01.recvWriteStmts.length = 1 ∧
+    Gen.C01.earlyUnlocksReturn = true ∧
+    Gen.C01.recvNonceWriters = ["Decrypt"] := by decide
 
 /-- (c) A rejected delivery leaves the endpoint exactly as it was — for EVERY session state and
     EVERY packet (no admissibility assumption at all). -/
